@@ -480,3 +480,27 @@ func (i *interpreter) roundRobin(me *thread, cands []*thread) int {
 	}
 	return best
 }
+
+// sleepYield hands the baton to the next runnable goroutine (round-robin),
+// without consuming the preemption budget: a sleeping goroutine lets the
+// others run.
+func (i *interpreter) sleepYield() {
+	if len(i.threads) == 1 {
+		return
+	}
+	me := i.cur
+	var cands []*thread
+	for _, t := range i.runnable() {
+		if t != me {
+			cands = append(cands, t)
+		}
+	}
+	if len(cands) == 0 {
+		return
+	}
+	i.sleeps++
+	if i.sleeps > 10000 {
+		panic(unwindExceeded{"goroutine sleeps more than 10000 times waiting for others"})
+	}
+	i.switchTo(me, cands[i.roundRobin(me, cands)])
+}
